@@ -3,6 +3,8 @@ import hypothesis
 from hypothesis import given, settings, seed, HealthCheck, Phase, strategies as st
 from hypothesis.stateful import run_state_machine_as_test
 from bv.runner import Violation
+import warnings
+warnings.filterwarnings("ignore", category=hypothesis.errors.HypothesisWarning)
 
 
 def _settings(max_examples, shrink, **kw):
